@@ -180,6 +180,7 @@ func (fe *FnExec) freshVal(t types.Type, hint string) Val {
 	case *types.Pointer:
 		b := fe.fresh(hint, "Int")
 		fe.assume(sx("<=", "0", b), "ref")
+		fe.typedRef(b, u.Elem())
 		return PtrV{Base: b, Prefix: typeName(u.Elem()), Pointee: u.Elem()}
 	case *types.Tuple:
 		tv := TupleV{}
@@ -297,6 +298,14 @@ func valKey(v Val) string {
 		return "ph:" + x.Prefix + "@" + x.Base
 	}
 	return fmt.Sprintf("?%T", v)
+}
+
+// typedRef: objects of different struct types have different ids.
+func (fe *FnExec) typedRef(ref Term, pointee types.Type) {
+	if _, ok := pointee.Underlying().(*types.Struct); !ok {
+		return
+	}
+	fe.assume(tOr(tEq(ref, "0"), tEq(sx("styp", ref), tInt(int64(fe.tid(pointee))))), "static type of a struct pointer")
 }
 
 // mergeVal merges values arriving on edges with path conditions pcs.
@@ -494,6 +503,7 @@ func (fe *FnExec) loadHeap(st *State, prefix string, base Term, t types.Type) Va
 		return RefV{sel}
 	case *types.Pointer:
 		sel := sx("select", fe.heapGet(st, prefix, "Int"), base)
+		fe.typedRef(sel, u.Elem())
 		return PtrV{Base: sel, Prefix: typeName(u.Elem()), Pointee: u.Elem()}
 	case *types.Array:
 		sel := sx("select", fe.heapGet(st, prefix, "Int"), base)
